@@ -9,5 +9,6 @@ PROPERTY C16_ValidChild
 PROPERTY C16_OnlyRequesterChanges
 PROPERTY C16_ReleaseFrees
 PROPERTY C16_PersistIdentity
+PROPERTY C16_LoadRestores
 PROPERTY C16_RefuseWhenFull
 CHECK_DEADLOCK FALSE
